@@ -36,7 +36,9 @@ CONFIGS = {
     ("fits", "i2"): "Int", ("fits", "i4"): "Int", ("npy", "u1"): "Int", ("npy", "i2"): "Int", ("npy", "i4"): "Int",
     ("png", "rgba"): "Colour", ("png", "rgb"): "Colour", ("jpg", "rgb"): "Colour",
 }
-INT_MAX = {"u1": 255, "i2": 30000, "i4": 500000000}
+INT_MAX = {"u1": 255, "i2": 32767, "i4": 2147483647}
+# int32 values above 2^24 (a float32 intermediate would lose counts there) next to small ones
+I4_EXTRA = [16777217, 33554433, 1000000007, 1999999999, 2147483646]
 FLOAT_VALUES = [-1000, -7, -1, 0, 1, 2, 3, 5, 10, 1000]
 JPG_TOL = 12
 
@@ -111,14 +113,19 @@ def _is_allu(m, mode):
     return False
 
 
-def make_case(rng, cid, T, depth, fmt, dtag, run="serial", pleaf=None, stale_p=0.3, keepu=None, shape=None):
+def make_case(rng, cid, T, depth, fmt, dtag, run="serial", pleaf=None, stale_p=0.3, keepu=None, shape=None, rewrite_p=None):
     mode = CONFIGS[(fmt, dtag)]
     floor = 4 ** depth
-    if mode == "Float":
+    if mode == "Float" and shape == "zero-min":        # non-negative data whose minimum is exactly 0
+        values = [0, 2, 3, 5, 10]
+    elif mode == "Float" and shape == "zero-max":      # non-positive data whose maximum is exactly 0
+        values = [-1000, -7, -3, -1, 0]
+    elif mode == "Float":
         values = rng.sample(FLOAT_VALUES, rng.randint(2, 5))
     elif mode == "Int":
         top = INT_MAX[dtag]
-        values = sorted(set([floor, floor + 1, top] + [rng.randint(floor, top) for _ in range(4)]))
+        values = sorted(set([floor, floor + 1, top] + [rng.randint(floor, top) for _ in range(3)] + [rng.randint(floor, 255)]
+                            + (rng.sample(I4_EXTRA, 3) if dtag == "i4" else [])))
     else:
         values = [0, floor, floor + 1, 255] + [rng.randint(floor, 255) for _ in range(4)]
     can_u = mode != "Int" and dtag != "rgb"
@@ -148,6 +155,15 @@ def make_case(rng, cid, T, depth, fmt, dtag, run="serial", pleaf=None, stale_p=0
                 leaves.pop(k, None)
             k = rng.choice(ks)
             leaves[k] = _leaf_matrix(rng, T, mode, dtag, values, "const" if fmt == "jpg" else ("rand" if can_u else "full"))
+    if shape == "full-then-four-partial" and depth >= 2 and can_u:
+        # the first parent in walk order is fully defined; every later parent has all FOUR children, each with undefined
+        # pixels: whatever the previous merge left in the buffer must not show through them
+        pars = level(depth - 1)
+        for k in kids(pars[0]):
+            leaves[k] = _leaf_matrix(rng, T, mode, dtag, values, "full")
+        for par in pars[1:]:
+            for k in kids(par):
+                leaves[k] = _leaf_matrix(rng, T, mode, dtag, values, rng.choice(["rand", "rand", "one", "row"]))
     if shape == "all-undefined-parent" and depth >= 1 and can_u:
         # a parent all of whose existing children are entirely undefined files written by a foreign tool
         keepu = True
@@ -180,9 +196,13 @@ def make_case(rng, cid, T, depth, fmt, dtag, run="serial", pleaf=None, stale_p=0
     scale = 1.0
     if mode == "Float":
         scale = rng.choice([1.0, 1.0, 0.25, 4096.0])
+    # harness-side ways of producing the same leaf files: exact zeros written as -0.0; leaves written twice (a first
+    # version without the extreme pixels, then PyramidIO.update_image painting the final pixels in)
+    negzero = mode == "Float" and rng.random() < (0.5 if shape in ("zero-min", "zero-max") else 0.15)
+    rewrite = fmt in ("fits", "npy") and rng.random() < (rewrite_p if rewrite_p is not None else 0.15)
     return {"id": cid, "T": T, "depth": depth, "fmt": fmt, "dtag": dtag, "mode": mode, "run": run, "keepu": bool(keepu),
             "leaves": leaves, "stale": stale, "live": live, "sv": sv, "scale": scale,
-            "has_data": bool(has_data)}
+            "has_data": bool(has_data), "negzero": negzero, "rewrite": rewrite}
 
 
 def tla_case(c):
@@ -266,6 +286,8 @@ def concrete_tile(px, meta, h):
     import numpy as np
     lo, _hi = abstract_arrays(px, meta["mode"], meta["scale"])
     arr = lift(lo, meta["T"], h).astype(np_dtype(meta["dtag"]))
+    if meta.get("negzero") and meta["mode"] == "Float":
+        arr[arr == 0] = -0.0
     if meta["dtag"] == "rgb":
         arr = arr[..., :3]
     return np.ascontiguousarray(arr)
@@ -407,6 +429,8 @@ def _populate(base, meta, rec):
         pos = Pos(*g["pos"])
         if g["raw"]:
             raw_write(pio.tile_path(pos), arr, meta["fmt"])
+        elif meta.get("rewrite"):
+            _write_twice(pio, pos, arr, meta)
         else:
             pio.write_image(pos, Image.from_array(arr))
     for t in rec["init"]:
@@ -414,6 +438,24 @@ def _populate(base, meta, rec):
             arr = concrete_tile(t["px"], meta, depth - t["pos"][0])
             pio.write_image(Pos(*t["pos"]), Image.from_array(arr))
     return pio
+
+
+def _write_twice(pio, pos, arr, meta):
+    """The leaf is first written without its extreme pixels, then updated in place (PyramidIO.update_image, what the
+    multi-image tilers and repeated sampling passes do) so that the file ends up holding exactly `arr`."""
+    import numpy as np
+    from toasty.image import Image
+    first = arr.copy()
+    if meta["mode"] == "Float":
+        fin = np.isfinite(arr)
+        if fin.any():
+            first[fin & ((arr == arr[fin].min()) | (arr == arr[fin].max()))] = np.nan
+    else:
+        first[arr == arr.max()] = 0
+    pio.write_image(pos, Image.from_array(first))
+    img = Image.from_array(arr)
+    with pio.update_image(pos, masked_mode=img.mode, default="masked") as basis:
+        img.update_into_maskable_buffer(basis, slice(None), slice(None), slice(None), slice(None))
 
 
 def _run_cascade(pio, base, meta, rec, run):
@@ -628,7 +670,7 @@ def _plain(meta):
 
 # depth-1 family enumerated by TLC itself (T = 2): every leaf absent or one of these matrices
 ENUM_MATRICES_QUICK = ["<<<<<<>>, <<>>>>, <<<<>>, <<>>>>>>",          # entirely undefined
-                       "<<<<<<1>>, <<2>>>>, <<<<3>>, <<5>>>>>>",      # full, four different values
+                       "<<<<<<0>>, <<2>>>>, <<<<3>>, <<5>>>>>>",      # full, four different values, minimum exactly 0
                        "<<<<<<-7>>, <<>>>>, <<<<>>, <<10>>>>>>"]      # diagonal
 ENUM_VALS_THOROUGH = "{<<>>, <<1>>}"
 
@@ -648,7 +690,8 @@ def enum_meta(rec, i, scratch):
     """Harness-side attributes of a TLC-enumerated record (depth 1, T = 2, Float)."""
     fmt = "fits" if rec["bottomup"] else "npy"
     return {"id": "enum-%d" % i, "T": 2, "depth": 1, "fmt": fmt, "dtag": "f4" if i % 3 else "f8", "mode": "Float",
-            "run": "serial" if i % 5 else "cli", "scale": 1.0, "scratch": scratch}
+            "run": "serial" if i % 5 else "cli", "scale": 1.0, "scratch": scratch,
+            "negzero": i % 4 == 1, "rewrite": i % 3 == 1}
 
 
 QUICK_PLAN = [
@@ -662,7 +705,7 @@ PARALLEL_PLAN_QUICK = [("fits", "f4", "par2"), ("fits", "f4", "par3"), ("npy", "
                        ("npy", "f8", "filter-par2"), ("fits", "f8", "par2"), ("png", "rgba", "par3")]
 
 
-def build_cases(ctx, T, depth, plan, parallel_plan, mult=1, allow_keepu=True):
+def build_cases(ctx, T, depth, plan, parallel_plan, mult=1, allow_keepu=True, rewrite_p=None):
     rng = ctx.rng
     cases = []
     cid = [0]
@@ -671,6 +714,7 @@ def build_cases(ctx, T, depth, plan, parallel_plan, mult=1, allow_keepu=True):
         cid[0] += 1
         if not allow_keepu:
             kw["keepu"] = False
+        kw.setdefault("rewrite_p", rewrite_p)
         c = make_case(rng, cid[0], T, depth, fmt, dtag, **kw)
         cases.append(c)
         return c
@@ -681,12 +725,19 @@ def build_cases(ctx, T, depth, plan, parallel_plan, mult=1, allow_keepu=True):
         new(fmt, dtag, shape="full-then-sparse", run="cli", stale_p=1.0, pleaf=0.3)
         if can_u and allow_keepu:
             new(fmt, dtag, shape="all-undefined-parent", run="serial", pleaf=0.4)
+        if can_u and depth >= 2:
+            new(fmt, dtag, shape="full-then-four-partial", run="serial", stale_p=0.3, pleaf=0.2)
+            new(fmt, dtag, shape="full-then-four-partial", run="cli", stale_p=0.0, pleaf=0.0)
+        if CONFIGS[(fmt, dtag)] == "Float":
+            new(fmt, dtag, shape="zero-min", run="serial")
+            new(fmt, dtag, shape="zero-max", run="cli")
         for i in range(n):
             run = ["serial", "serial", "cli", "serial", "filter", "serial"][i % 6]
             new(fmt, dtag, run=run)
     for fmt, dtag, run in parallel_plan:
+        can_u = CONFIGS[(fmt, dtag)] != "Int" and dtag != "rgb"
         new(fmt, dtag, run=run, pleaf=rng.choice([0.5, 0.8, 1.0]), stale_p=0.5,
-            shape="full-then-sparse" if run == "par3" else None)
+            shape=("full-then-four-partial" if can_u else "full-then-sparse") if run in ("par3", "par2") else None)
     return cases
 
 
@@ -718,7 +769,7 @@ def check_terminal_unique(ctx, recs, what):
         ctx.machinery("%s: cases %s have more than one terminal state although DoneRight holds" % (what, dup[:5]))
 
 
-def plan_binding(ctx, prop, plan, parallel_plan, only_fits=False, builder_runs=0, allow_keepu=True):
+def plan_binding(ctx, prop, plan, parallel_plan, only_fits=False, builder_runs=0, allow_keepu=True, rewrite_p=None):
     """Shared by C02 and C14: the harness-enumerated case families as TLC tasks (name, T, depth, cases)."""
     quick = ctx.quick
     tasks = []
@@ -728,7 +779,7 @@ def plan_binding(ctx, prop, plan, parallel_plan, only_fits=False, builder_runs=0
     # ---- depth 2 (T = 4) and depth 1 (T = 4): all modes and formats
     for T, depth in ((4, 2), (4, 1)):
         cases = build_cases(ctx, T, depth, plan, parallel_plan if depth == 2 else parallel_plan[:2], mult=1 if quick else 6,
-                            allow_keepu=allow_keepu)
+                            allow_keepu=allow_keepu, rewrite_p=rewrite_p)
         if builder_runs:
             fits_data = [c for c in cases if c["fmt"] == "fits" and c["has_data"] and not c["keepu"] and c["run"] in ("serial", "cli", "par2")]
             for i, c in enumerate(fits_data[: builder_runs * (2 if depth == 2 else 1)]):
@@ -740,7 +791,7 @@ def plan_binding(ctx, prop, plan, parallel_plan, only_fits=False, builder_runs=0
         small = [(f, d, 0, 0) for f, d, _a, _b in plan if (f, d) in (("fits", "f4"), ("fits", "i2"), ("npy", "f4"), ("npy", "u1"),
                                                                      ("png", "rgba"), ("png", "rgb"))]
         cases = build_cases(ctx, 8, 3, small, [p for p in [("fits", "f4", "par2"), ("png", "rgba", "par3")] if p in parallel_plan or not only_fits],
-                            mult=1, allow_keepu=allow_keepu)
+                            mult=1, allow_keepu=allow_keepu, rewrite_p=rewrite_p)
         if builder_runs:
             for c in cases:
                 if c["fmt"] == "fits" and c["has_data"] and not c["keepu"] and c["run"] == "serial":
